@@ -38,6 +38,9 @@ pub fn replay_file(path: &str) -> i32 {
     if v.get("kind").and_then(|k| k.as_str()) == Some("sel") {
         return crate::sel::replay(&v);
     }
+    if v.get("kind").and_then(|k| k.as_str()) == Some("probe") {
+        return crate::probe::replay(&v);
+    }
     if v.get("kind").and_then(|k| k.as_str()) == Some("c11") {
         return crate::c11::replay(&v);
     }
@@ -615,6 +618,13 @@ pub fn run_check(property: &str, tier: &str, part: Option<&str>, worker: bool) -
     } else {
         None
     };
+    // C03 (c) / C06 (b): the pointer-move sequence of the JIT with symbolic tape geometry
+    let probe_handle = if (property == "C03" || property == "C06") && part.is_none() && std::env::var("SYMX_ONLY_FAMILY").is_err() {
+        let prop: &'static str = if property == "C03" { "C03" } else { "C06" };
+        Some(std::thread::Builder::new().stack_size(1 << 26).spawn(move || crate::probe::run_parallel(thorough_tier, if thorough_tier { 900 } else { 140 }, prop)).unwrap())
+    } else {
+        None
+    };
     // SHAPES: program constants as a solver dimension (C01: plain IR semantics; C02: the
     // at-least-once flag honoured, as the bytecode generator does)
     let shapes_handle = if (property == "C01" || (property == "C02" && cfg!(debug_assertions))) && std::env::var("SYMX_ONLY_FAMILY").is_err() {
@@ -705,6 +715,7 @@ pub fn run_check(property: &str, tier: &str, part: Option<&str>, worker: bool) -
     assumptions.extend(plan.assumptions.iter().cloned());
     // C03 (a): selector lemmas
     let mut sel_violations = 0usize;
+    let mut probe_unconfirmed = 0usize;
     if let Some(h) = sel_handle {
         let so = h.join().unwrap_or_default();
         let known = report::Known::load();
@@ -753,7 +764,42 @@ pub fn run_check(property: &str, tier: &str, part: Option<&str>, worker: bool) -
         });
         cov["evaluations"] = json!(cov["evaluations"].as_u64().unwrap_or(0) + so.forms);
     }
-    let inconclusive_total = cov["inconclusive"].as_u64().unwrap_or(0) as usize + sum.not_reproduced.len() + sum.replay_errors.len();
+    if let Some(h) = probe_handle {
+        let po = h.join().unwrap_or_default();
+        let dir = format!("{}/replays", report::verif_root());
+        let mut unconfirmed = 0usize;
+        let mut seen = std::collections::BTreeSet::new();
+        for f in &po.failing {
+            if f["native"].is_null() {
+                unconfirmed += 1;
+                println!("INCONCLUSIVE: pointer-move lemma fails in the model but was not reproduced natively: {} ({})", f["what"].as_str().unwrap_or(""), f["model"].as_str().unwrap_or(""));
+                continue;
+            }
+            // one VIOLATION per (width, lemma)
+            if !seen.insert(format!("{} {}", f["width"], f["lemma"])) || sel_violations >= 10 {
+                continue;
+            }
+            let path = format!("{}/{}-probe-{}.json", dir, property, sel_violations);
+            let _ = std::fs::create_dir_all(&dir);
+            let _ = std::fs::write(&path, serde_json::to_string_pretty(f).unwrap());
+            println!("VIOLATION property={} replay={}", property, path);
+            println!("  pointer-move lemma: {} ; {}", f["what"].as_str().unwrap_or(""), f["native"].as_str().unwrap_or(""));
+            sel_violations += 1;
+        }
+        probe_unconfirmed = unconfirmed;
+        cov["pointer_move_lemmas_symbolic_geometry"] = json!({
+            "configurations_checked": po.configurations, "configurations_total": po.total_configurations,
+            "lemmas": po.lemmas, "discharged_unsat": po.discharged, "undecided": po.undecided.len(),
+            "failing": po.failing.len(), "failing_confirmed_natively": po.failing_confirmed_natively, "failing_not_confirmed": unconfirmed,
+            "solver_queries": po.stats.queries, "solver_seconds": po.stats.seconds,
+            "undecided_samples": po.undecided.iter().take(3).collect::<Vec<_>>(),
+            "rule": "machine code of the one-instruction bytecode program [Mov(shift)] (hook verif_from_bytecode), run in the x86 model up to the epilogue with buffer address, size, tape pointer and recorded offset as 64-bit solver variables; preconditions: size in [1, 2^60), buffer < 2^62, pointer cell-aligned, the whole access window [min, max] inside the block; hpbf_context_extend replaced by the contract of make_accessible(0, 1) (fresh block below 2^62 that keeps the old cells at added_below and contains the re-based offset; established for every geometry by the MIR-level lemmas of C09). Decided: fast path => moved pointer is ptr + shift*w, probed cell and the whole window inside the block; slow path => extend is asked for [0, 1), the recorded offset is the index of the probed cell, the re-based pointer denotes the moved cell, the whole window lies inside the new block",
+            "shifts": "1, -1, -3, 7, 2, -8, 1000, -4097", "windows": "[-3,5], [0,0], [-1,0], [0,17]", "widths": "8, 16, 32, 64",
+            "samples": po.failing.iter().take(3).collect::<Vec<_>>(),
+        });
+        cov["evaluations"] = json!(cov["evaluations"].as_u64().unwrap_or(0) + po.lemmas);
+    }
+    let inconclusive_total = cov["inconclusive"].as_u64().unwrap_or(0) as usize + sum.not_reproduced.len() + sum.replay_errors.len() + probe_unconfirmed;
     let ev = json!({
         "property_id": property,
         "tier": tier,
@@ -793,7 +839,7 @@ pub fn run_check(property: &str, tier: &str, part: Option<&str>, worker: bool) -
     );
     if !sum.violations.is_empty() || sel_violations > 0 {
         1
-    } else if !sum.not_reproduced.is_empty() {
+    } else if !sum.not_reproduced.is_empty() || probe_unconfirmed > 0 {
         2
     } else {
         0
